@@ -214,7 +214,9 @@ def v1(repo: Repo) -> RuleResult:
         f.part = "constant"
         res.bad(f)
     for cn in ("Constant", "Option"):
-        fv = m.func("_ast.py", f"{cn}.from_value")
+        fv = m.lookup(m.cls(cn, "_ast.py"), "from_value")
+        if fv is None:
+            raise Inconclusive(f"anchor function vanished: _ast.py:{cn}.from_value")
         res.inst(part="constant", action=f"{cn}.from_value")
         ok_fv = False
         try:
@@ -237,7 +239,9 @@ def v1(repo: Repo) -> RuleResult:
             f = Finding("V1", fv.rel, fv.node.lineno, f"{cn}.from_value", "", "from_value does not construct the node with the given value", tag=f"{cn}.from_value")
             f.part = "constant"
             res.bad(f)
-        rs = m.func("_ast.py", f"{cn}.reflect_subclass_by_value")
+        rs = m.lookup(m.cls(cn, "_ast.py"), "reflect_subclass_by_value")
+        if rs is None:
+            raise Inconclusive(f"anchor function vanished: _ast.py:{cn}.reflect_subclass_by_value")
         from .flows import compiler_flow, value_kind_decider
         from .normal import V as _V, show as _show
 
